@@ -111,8 +111,6 @@ structure St where
   grace       : Bool          -- a grace timer of the current disconnect epoch is pending
   appGone     : Bool          -- the application dropped its last handle while a loop still held a strong one
   blocked     : Nat           -- `send_data` calls parked in the SCTP flow-control wait
-  iceTask     : Bool          -- the ICE check / nomination task may still be running (it writes the ICE state)
-  iceStopped  : Bool          -- `IceTransport::stop()` ran: the sockets are gone
 deriving DecidableEq, Repr, Inhabited
 
 /-! ### small building blocks (one per code idiom) -/
@@ -189,7 +187,7 @@ def teardown (s : St) (arg : Reason) : St :=
               blocked := if s.held then 0 else s.blocked,
               chans := s.chans.map closeChan,
               dtlsCloseReq := if s.dtls = .absent then s.dtlsCloseReq else true,
-              ice := .closed, iceStopped := true }
+              ice := .closed }
 
 /-- `Drop for PeerConnectionInner`: `close_with_reason(Dropped)` then `abort_tracked_tasks` (the driving
 loop task and everything it spawned) -/
@@ -247,9 +245,6 @@ inductive Act
   -- environment
   | peerCloseNotify | dtlsFail | peerAbort | peerShutdownAck | peerShutdown | hbTimeout
   | iceFail | iceStop | iceDisconnect | iceRecover
-  -- the ICE check task's nomination fails *after* `stop()` and overwrites `Closed` with `Failed`
-  -- (`perform_connectivity_checks`: "All nomination attempts failed" → `state.send(Failed)`, unconditional)
-  | iceLateFail
   -- environment: connection progress (used when an event races connection establishment)
   | iceConnect | dtlsConnect | roleSet | descsSet
   -- driving loop (one per `select!` arm / await point)
@@ -291,7 +286,7 @@ def closeB (s : St) : St :=
 def closeC (s : St) : St :=
   -- … and `abort_tracked_tasks()` (fix 4a209bd): the driving-loop task and what it spawned are aborted
   abortLoops { s with dtlsCloseReq := if s.dtls = .absent then s.dtlsCloseReq else true,
-                      ice := .closed, iceStopped := true, close := .finished, drv := .done }
+                      ice := .closed, close := .finished, drv := .done }
 
 def enabled (s : St) : Act → Bool
   | .callClose _ => s.close == .none || s.close == .finished
@@ -305,7 +300,6 @@ def enabled (s : St) : Act → Bool
   | .peerShutdown => s.sctp == .running
   | .iceFail => s.ice != .closed && s.ice != .failed
   | .iceStop => s.ice != .closed
-  | .iceLateFail => s.iceTask && s.iceStopped && s.ice == .closed
   | .iceDisconnect => s.ice == .connected
   | .iceRecover => s.ice == .disconnected
   | .iceConnect => s.ice == .new || s.ice == .checking
@@ -326,7 +320,7 @@ def enabled (s : St) : Act → Bool
   | .sctpClose => (s.drv == .starting || s.drv == .running) &&
       (s.sctp == .waiting || s.sctp == .running) && s.sctpCloseReq
   | .dtlsExit => !s.dtlsExited && s.dtlsCloseReq && s.dtls != .absent
-  | .dtlsSock => !s.dtlsExited && s.iceStopped && (s.dtls == .handshaking || s.dtls == .connected)
+  | .dtlsSock => !s.dtlsExited && s.ice == .closed && (s.dtls == .handshaking || s.dtls == .connected)
 
 /-- the DTLS-down reason string of the SCTP runner (both its wait phase, fix 8df52c2, and its loop) -/
 def whyOfDtls (d : DtlsSt) : SctpWhy := if d = .failed then .dtlsFailed else .dtlsClosed
@@ -344,8 +338,7 @@ def apply (s : St) : Act → St
   | .hbTimeout => sctpEnd { s with why := some .heartbeatTimeout }
   | .peerShutdown => sctpEnd { s with why := some .remoteShutdown }  -- SHUTDOWN … SHUTDOWN COMPLETE (fix 631c2a4)
   | .iceFail => { s with ice := .failed }
-  | .iceStop => { s with ice := .closed, iceStopped := true }
-  | .iceLateFail => { s with ice := .failed, iceTask := false }
+  | .iceStop => { s with ice := .closed }
   | .iceDisconnect => { s with ice := .disconnected }
   | .iceRecover => { s with ice := .connected }
   | .iceConnect => { s with ice := .connected }
@@ -461,7 +454,7 @@ inductive Phase
 deriving DecidableEq, Repr
 
 def base (mode : Mode) (hasApp : Bool) (nch : Nat) : St :=
-  { mode, needDescs := false, descs := true, appGone := false, blocked := 0, iceTask := false, iceStopped := false, hasApp, role := false, peer := .new, sig := .stable, reason := none, ice := .new, iceSeen := .new,
+  { mode, needDescs := false, descs := true, appGone := false, blocked := 0, hasApp, role := false, peer := .new, sig := .stable, reason := none, ice := .new, iceSeen := .new,
     dtls := .absent, dtlsSeen := .absent, dtlsCloseReq := false, dtlsExited := false, sctp := .absent,
     why := none, sctpCloseReq := false, held := false, listenersCleared := false,
     chans := List.replicate nch ⟨false, 0, false⟩, drv := .idle, close := .none, closeArg := .localClose,
@@ -478,11 +471,10 @@ def phaseState (mode : Mode) (hasApp : Bool) (nch : Nat) : Phase → St
   | .created => base mode hasApp nch
   | .offerMade => { base mode hasApp nch with sig := .haveLocalOffer }
   | .remoteOfferSet => { base mode hasApp nch with sig := .haveRemoteOffer, role := true }
-  -- while the connection is being established the ICE check / nomination task may still be alive
-  | .checking => { base mode hasApp nch with role := true, ice := .checking, iceSeen := .checking, iceTask := true }
-  | .iceConnected => { base mode hasApp nch with role := true, ice := .connected, iceSeen := .checking, iceTask := true }
-  | .dtlsHandshaking => beginStart { base mode hasApp nch with role := true, ice := .connected, iceSeen := .connected, iceTask := true }
-  | .dtlsConnected => { beginStart { base mode hasApp nch with role := true, ice := .connected, iceSeen := .connected, iceTask := true } with dtls := .connected }
+  | .checking => { base mode hasApp nch with role := true, ice := .checking, iceSeen := .checking }
+  | .iceConnected => { base mode hasApp nch with role := true, ice := .connected, iceSeen := .checking }
+  | .dtlsHandshaking => beginStart { base mode hasApp nch with role := true, ice := .connected, iceSeen := .connected }
+  | .dtlsConnected => { beginStart { base mode hasApp nch with role := true, ice := .connected, iceSeen := .connected } with dtls := .connected }
   | .sctpConnecting => connectedSt mode hasApp nch
   | .channelsOpen => connectedSt mode hasApp nch
   | .mediaFlowing => connectedSt mode hasApp nch
